@@ -236,6 +236,14 @@ type evidence struct {
 // Finish writes the evidence file and replay artefacts, prints the verdict
 // lines and returns the process exit code.
 func (r *Report) Finish(seed int) int {
+	if f := os.Getenv("SFNT_USEDLOG"); f != "" {
+		if fh, err := os.OpenFile(f, os.O_APPEND|os.O_CREATE|os.O_WRONLY, 0o644); err == nil {
+			for k := range r.usedTbl {
+				fmt.Fprintln(fh, k)
+			}
+			fh.Close()
+		}
+	}
 	// vacuity floors
 	for rule, fl := range r.Floors {
 		if r.Counts[rule] < fl {
